@@ -51,4 +51,15 @@ REGISTRY = {
                       'poller by its BasePoller contract (C10).',
         'explanation': 'life-cycle and residue contracts discharged by z3/cvc5',
     },
+    'C10': {
+        'modules': ['contracts.pollers'], 'level': 'proof',
+        'level_text': 'BasePoller operations against a multiset model; Mirror invariant (registration tables = ghost kernel interest, '
+                      '_map inverse of fileno) re-established by _updateRegistration from any prior state, hence after every operation '
+                      'in every order; under Mirror and the kernel contract _process/_generate_events emit exactly the registered-and-'
+                      'reported events, addressed to the registering channel. All inputs, no bound.',
+        'level_note': 'trusted: select.poll/epoll/select and fileno() contracts (kernel readiness itself is not modelled); the three '
+                      'pollers are shown to satisfy one abstract BasePoller contract, stream equality of sockets on top follows from C11/C12.',
+        'explanation': 'poller contracts discharged by z3',
+        'not_decided': ['actual kernel readiness', 'KQueue'],
+    },
 }
